@@ -1,4 +1,7 @@
 import CppUModel.Proofs.Mock
+import CppUModel.Proofs.MockLazy
+import CppUModel.Proofs.MockIop
+import CppUModel.Proofs.MockOut
 /-!
 # C08 — the mock verdict is exact
 
@@ -77,8 +80,7 @@ theorem returns_value_of_consumed (es : List Exp) (c : Call) (k : Nat) (buf : Li
     registered by the `withOutputParameter` steps (one per step, in program order) are the result
     of copying the consumed expectation's output bytes over them: for every buffer whose name the
     consumed expectation gives bytes for, the buffer starts with exactly those bytes.
-    Not in this statement: that the bytes *behind* the copied ones are still the caller's
-    (see `outputs_copied_from_consumed_full`). -/
+    (The exact statement, including the untouched tail, is `outputs_copied_from_consumed`.) -/
 theorem outputs_copied_from_consumed_partial (es : List Exp) (c : Call) (k : Nat) (buf : List UInt8)
     (hclean : Clean es) (hplain : Plain es) (hun : Unambiguous es) (hwfe : ∀ e ∈ es, WFExp e) (hwf : WFCall c)
     (hok : (callFull es k c.name c.segs buf).fail = none) :
@@ -87,17 +89,19 @@ theorem outputs_copied_from_consumed_partial (es : List Exp) (c : Call) (k : Nat
   callFull_outputs k buf hclean hplain hun hwfe hwf hok
 
 /-- The full-strength statement about output parameters: the buffers are exactly the caller's
-    buffers with the consumed expectation's bytes copied over their beginning.  NOT PROVED here
-    (it additionally needs that no *other* expectation was a complete match at an earlier step of
-    the same call, which holds for unambiguous sets but is not carried through the invariant);
-    it is what the specification oracle checks on the implementation's observations in every
-    run (all 8 bytes of every output buffer of every fulfilled call). -/
+    buffers with the consumed expectation's bytes copied over their beginning — the tail beyond
+    the copied size, and buffers the expectation gives no bytes for, are untouched.
+    Proved below (`outputs_copied_from_consumed`). -/
 def outputs_copied_from_consumed_full : Prop :=
   ∀ (es : List Exp) (c : Call) (k : Nat) (buf : List UInt8),
     Clean es → Plain es → Unambiguous es → (∀ e ∈ es, WFExp e) → WFCall c →
     (callFull es k c.name c.segs buf).fail = none →
     ∃ x, es.find? (wants c) = some x ∧
       (callFull es k c.name c.segs buf).call.bufs = copyOutputs x ((outNames c.segs).map (fun n => (n, buf)))
+
+/-- **outputs_copied_from_consumed.** -/
+theorem outputs_copied_from_consumed : outputs_copied_from_consumed_full :=
+  fun _ _ k buf hclean hplain hun hwfe hwf hok => callFull_outputs_full k buf hclean hplain hun hwfe hwf hok
 
 /-- **run_refines_consume.** A whole run of the code is the fold of the abstract consumption
     (`consume`: use up the first expectation with capacity and the call's signature) followed by
@@ -240,16 +244,100 @@ theorem calls_leave_clean : ∀ (calls : List Call) (es : List Exp) (k : Nat) (e
 /-- The full-strength statement for the ignore-other-parameters class (textbook reading: a call
     matches such an expectation iff name/object agree and every parameter it names occurs in the
     call with an equal value, extra parameters allowed; for sets that are unambiguous in that
-    sense the scenario passes iff the calls can be assigned one-to-one to the expected units).
-    NOT PROVED: the invariant chain of the plain class relies on complete candidates being taken
-    during the call, while here the match is only taken when the call is finished.  It is what
-    the specification oracle judges on the implementation's observations in every run (stream
-    `iop`), and `no_stale_matching_state` is the part of it that is proved. -/
+    sense the scenario passes iff the calls can be assigned one-to-one to the expected units —
+    a count per class).  Plain expectations and expectations that ignore other parameters may be
+    mixed.  Proved below (`iop_verdict_iff_multiset_eq`). -/
 def iop_verdict_iff_multiset_eq_full : Prop :=
   ∀ (es : List Exp) (k : Nat) (calls : List Call),
     Clean es → UnambiguousI es → (∀ e ∈ es, WFExp e) → (∀ c ∈ calls, WFCall c) →
     (∀ e ∈ es, e.actual ≤ e.expected) → NoOrder es →
     (run es k calls = none ↔ MultisetEqI es calls)
+
+/-- **call_succeeds_iff, every class.** Also with `ignoreOtherParameters` (whose match is only
+    taken when the call is finished): a call made with clean flags is fulfilled iff some
+    expectation with capacity matches it, it consumes the first such in declaration order and
+    returns its value. -/
+theorem call_succeeds_iff_general (es : List Exp) (c : Call) (k : Nat) (buf : List UInt8)
+    (hclean : Clean es) (hun : UnambiguousI es) (hwfe : ∀ e ∈ es, WFExp e) (hwf : WFCall c) :
+    (es.any (wants c) = true →
+      (callFull es k c.name c.segs buf).fail = none ∧
+      (callFull es k c.name c.segs buf).es.map Exp.norm = modifyFirst (wants c) (fun e => e.bump k) (es.map Exp.norm) ∧
+      ∃ x, (es.map Exp.norm).find? (wants c) = some x ∧ returnValueOf (callFull es k c.name c.segs buf).es = x.ret) ∧
+    (es.any (wants c) = false → (callFull es k c.name c.segs buf).fail ≠ none) :=
+  callFull_specI k buf hclean hun hwfe hwf
+
+/-- **iop_verdict_iff_multiset_eq.** The verdict theorem for every unambiguous expectation set,
+    with or without `ignoreOtherParameters`. -/
+theorem iop_verdict_iff_multiset_eq : iop_verdict_iff_multiset_eq_full := by
+  intro es k calls hclean hun hwfe hwfc hcap hno
+  obtain ⟨r1, r2⟩ := run_refinesI calls es k hclean hun hwfe hwfc
+  have hnn : (es.map Exp.norm).map Exp.norm = es.map Exp.norm := by
+    simp [List.map_map, Function.comp_def, norm_norm]
+  have hN2 : UnambiguousI (es.map Exp.norm) := unambiguous_transferI hnn hun
+  have hN3 : ∀ e ∈ es.map Exp.norm, WFExp e := wfexp_transfer hnn hwfe
+  have hN4 : ∀ e ∈ es.map Exp.norm, e.actual ≤ e.expected := by
+    intro e he; simp only [List.mem_map] at he; obtain ⟨x, hx, rfl⟩ := he; exact hcap x hx
+  have hN5 : NoOrder (es.map Exp.norm) := by
+    intro e he; simp only [List.mem_map] at he; obtain ⟨x, hx, rfl⟩ := he; exact hno x hx
+  have key := consumeAll_full_iffI calls (es.map Exp.norm) k hN2 hN3 hN4
+  rw [multisetEq_normI] at key
+  rw [← key]
+  cases hc : consumeAll (es.map Exp.norm) k calls with
+  | none =>
+    have := r2 hc
+    constructor
+    · intro h'; exact absurd h' this
+    · rintro ⟨_, h', _⟩; cases h'
+  | some N' =>
+    rw [r1 N' hc, endCheck_none_iff]
+    have hord := noOrder_consumeAll calls _ k N' hN5 hc
+    constructor
+    · intro h'; exact ⟨N', rfl, h'.1⟩
+    · rintro ⟨N'', h1, h2⟩
+      simp only [Option.some.injEq] at h1; subst h1
+      exact ⟨h2, fun x hx => (hord x hx).2⟩
+
+/-- strict order, every class -/
+theorem strict_verdict_iff_sequence_eq_general (es : List Exp) (k : Nat) (calls : List Call)
+    (hclean : Clean es) (hun : UnambiguousI es) (hwfe : ∀ e ∈ es, WFExp e) (hwfc : ∀ c ∈ calls, WFCall c)
+    (hw : windowsFrom k es) : run es k calls = none ↔ SeqEq es calls := by
+  obtain ⟨r1, r2⟩ := run_refinesI calls es k hclean hun hwfe hwfc
+  have hin : InOrder k (es.map Exp.norm) := inOrder_of_windows _ k (windowsFrom_norm es k hw)
+  have key := strict_core calls (es.map Exp.norm) k hin
+  rw [expandInOrder_norm, seqFits_norm] at key
+  unfold SeqEq
+  rw [← key]
+  cases hc : consumeAll (es.map Exp.norm) k calls with
+  | none =>
+    have := r2 hc
+    constructor
+    · intro h'; exact absurd h' this
+    · rintro ⟨_, h', _⟩; cases h'
+  | some N' =>
+    rw [r1 N' hc]
+    constructor
+    · intro h'; exact ⟨N', rfl, h'⟩
+    · rintro ⟨N'', h1, h2⟩
+      simp only [Option.some.injEq] at h1; subst h1; exact h2
+
+/-- the verdict theorem for lazily finished calls, every class, with or without `ignoreOtherCalls` -/
+theorem lazy_iop_verdict_iff_multiset_eq (sc : Scope) (stmts : List Stmt)
+    (hname : sc.name = "") (hen : sc.enabled = true) (hlast : sc.last = none)
+    (hclean : Clean sc.es) (hun : UnambiguousI sc.es) (hwfe : ∀ e ∈ sc.es, WFExp e)
+    (hwfc : ∀ c ∈ stmts.map (·.call), WFCall c)
+    (hcap : ∀ e ∈ sc.es, e.actual ≤ e.expected) (hno : NoOrder sc.es) :
+    sc.lazyVerdict stmts = none ↔
+      MultisetEqI sc.es (if sc.ioc then knownCalls sc.es (stmts.map (·.call)) else stmts.map (·.call)) := by
+  rw [lazyVerdict_eq stmts sc hname hen]
+  simp only [Scope.settledFail, Scope.settledEs, hlast]
+  cases hi : sc.ioc with
+  | false =>
+    simp only [runG_false, Bool.false_eq_true, if_false]
+    exact iop_verdict_iff_multiset_eq sc.es sc.actualOrder _ hclean hun hwfe hwfc hcap hno
+  | true =>
+    simp only [runG_true_eq, if_true]
+    exact iop_verdict_iff_multiset_eq sc.es sc.actualOrder _ hclean hun hwfe
+      (fun c hc => hwfc c (by simp only [knownCalls, List.mem_filter] at hc; exact hc.1)) hcap hno
 
 /-! ### the runs of the theorems are what the driver's per-scope functions compute -/
 
@@ -271,6 +359,76 @@ theorem scope_call_is_callFull (sc : Scope) (fn : String) (segs : List Seg) (buf
 theorem check_is_endCheck (sc : Scope) (hname : sc.name = "") (hlast : sc.last = none) :
     (World.check { glob := sc, subs := [] } "").2 = endCheck sc.es :=
   world_check_is_endCheck sc hname hlast
+
+/-! ### lazily finished calls, `ignoreOtherCalls`, several scopes -/
+
+/-- **lazy_run_is_eager.** On a `MockSupport` (here the global mock, enabled) the run as the API
+    performs it — a call stays in flight until the next `actualCall`, the return-value getter or
+    `checkExpectations` finishes it; with `ignoreOtherCalls` calls to functions without an
+    expectation are skipped — has exactly the verdict of the eager run `runG` in which every
+    call is finished before the next statement.  For EVERY expectation list, whatever its class. -/
+theorem lazy_run_is_eager (sc : Scope) (stmts : List Stmt) (hname : sc.name = "") (hen : sc.enabled = true) :
+    sc.lazyVerdict stmts =
+      match sc.settledFail with
+      | some f => some f
+      | none => runG sc.ioc sc.settledEs sc.actualOrder (stmts.map (·.call)) :=
+  lazyVerdict_eq stmts sc hname hen
+
+/-- **lazy_verdict_iff_multiset_eq.** Hence the verdict theorem holds for lazily finished calls:
+    a fresh global mock without `ignoreOtherCalls`, plain unambiguous expectations. -/
+theorem lazy_verdict_iff_multiset_eq (sc : Scope) (stmts : List Stmt)
+    (hname : sc.name = "") (hen : sc.enabled = true) (hioc : sc.ioc = false) (hlast : sc.last = none)
+    (h : Hyp sc.es (stmts.map (·.call))) (hcap : ∀ e ∈ sc.es, e.actual ≤ e.expected) (hno : NoOrder sc.es) :
+    sc.lazyVerdict stmts = none ↔ MultisetEq sc.es (stmts.map (·.call)) := by
+  rw [lazy_run_is_eager sc stmts hname hen]
+  simp only [Scope.settledFail, Scope.settledEs, hlast, hioc, runG_false]
+  exact verdict_iff_multiset_eq sc.es sc.actualOrder _ h hcap hno
+
+/-- the same with strict order -/
+theorem lazy_strict_verdict_iff_sequence_eq (sc : Scope) (stmts : List Stmt)
+    (hname : sc.name = "") (hen : sc.enabled = true) (hioc : sc.ioc = false) (hlast : sc.last = none)
+    (h : Hyp sc.es (stmts.map (·.call))) (hw : windowsFrom sc.actualOrder sc.es) :
+    sc.lazyVerdict stmts = none ↔ SeqEq sc.es (stmts.map (·.call)) := by
+  rw [lazy_run_is_eager sc stmts hname hen]
+  simp only [Scope.settledFail, Scope.settledEs, hlast, hioc, runG_false]
+  exact strict_verdict_iff_sequence_eq sc.es sc.actualOrder _ h hw
+
+/-- **ioc_verdict_iff_multiset_eq (partial: plain class).** With `ignoreOtherCalls` the scenario
+    passes iff the multiset of the calls to functions that some expectation names equals the
+    expected multiset; calls to other functions do not matter (they are not even numbered). -/
+theorem ioc_verdict_iff_multiset_eq_partial (sc : Scope) (stmts : List Stmt)
+    (hname : sc.name = "") (hen : sc.enabled = true) (hioc : sc.ioc = true) (hlast : sc.last = none)
+    (h : Hyp sc.es (knownCalls sc.es (stmts.map (·.call)))) (hcap : ∀ e ∈ sc.es, e.actual ≤ e.expected) (hno : NoOrder sc.es) :
+    sc.lazyVerdict stmts = none ↔ MultisetEq sc.es (knownCalls sc.es (stmts.map (·.call))) := by
+  rw [lazy_run_is_eager sc stmts hname hen]
+  simp only [Scope.settledFail, Scope.settledEs, hlast, hioc, runG_true_eq]
+  exact verdict_iff_multiset_eq sc.es sc.actualOrder _ h hcap hno
+
+/-- **check_over_scopes.** `mock().checkExpectations()` finishes the calls in flight of the global
+    mock and of every named scope, then fails iff ANY of them has an unfulfilled expectation (else
+    iff any has an out-of-order call). -/
+theorem checkExpectations_over_scopes (w : World) :
+    (w.check "").2 =
+      match firstPendingFail (w.glob :: w.subs) with
+      | some f => some f
+      | none => endCheck w.allSettledEs :=
+  check_over_scopes w
+
+/-- `mock().expectedCallsLeft()` is true iff ANY scope has an unfulfilled expectation -/
+theorem expectedCallsLeft_over_scopes (w : World) (h : firstPendingFail (w.glob :: w.subs) = none) :
+    (w.left "").2.1 = none ∧ (w.left "").2.2 = w.allSettledEs.any (fun e => !e.isFulfilled) :=
+  left_over_scopes w h
+
+/-- an unfulfilled expectation in any scope — global or named, first or last — fails the check -/
+theorem unfulfilled_in_any_scope_fails (w : World) (sc : Scope) (e : Exp)
+    (hpend : firstPendingFail (w.glob :: w.subs) = none)
+    (hsc : sc ∈ w.glob :: w.subs) (he : e ∈ sc.settledEs) (hopen : e.actual ≠ e.expected) :
+    (w.check "").2 = some msgUnfulfilled := by
+  rw [checkExpectations_over_scopes, hpend]
+  have : w.allSettledEs.any (fun x => !x.isFulfilled) = true := by
+    simp only [List.any_eq_true, World.allSettledEs, List.mem_flatMap]
+    exact ⟨e, ⟨sc, hsc, he⟩, by simp [Exp.isFulfilled, hopen]⟩
+  simp [endCheck, this]
 
 /-! ### the hypotheses are what the API produces -/
 
@@ -358,6 +516,20 @@ example : run [ioA, ioB] 0 [ioC1, ioC2] = none ∧ MultisetEqI [ioA, ioB] [ioC1,
 example : run [ioA, ioB] 0 [ioC1, ioBad] = some "Mock Failure: Expected parameter for function \"foo\" did not happen."
     ∧ ¬ MultisetEqI [ioA, ioB] [ioC1, ioBad] := by decide
 example : returnValueOf (callFull [ioA, ioB] 1 ioC1.name ioC1.segs bufInit).es = some (.int 10) := by decide
+
+/-- lazily finished calls on a scope built with the API functions; the last call lacks the required parameter -/
+def ioScope : Scope := ((Scope.fresh "").expectN 1 "foo" [.inp "a" (.int 1), .iop, .ret (.int 10)]).expectN 1 "foo" [.inp "a" (.int 1), .iop]
+example : ioScope.lazyVerdict [⟨ioC1, false⟩, ⟨ioC2, true⟩] = none := by decide
+example : ioScope.lazyVerdict [⟨ioC1, false⟩, ⟨ioBad, false⟩] = some "Mock Failure: Expected parameter for function \"foo\" did not happen." := by decide
+/-- `ignoreOtherCalls`: the call to `bar` is skipped -/
+example : ({ ioScope with ioc := true } : Scope).lazyVerdict [⟨ioC1, false⟩, ⟨⟨"bar", []⟩, true⟩, ⟨ioC2, false⟩] = none := by decide
+example : ioScope.lazyVerdict [⟨ioC1, false⟩, ⟨⟨"bar", []⟩, true⟩, ⟨ioC2, false⟩] = some "Mock Failure: Unexpected call to function: bar" := by decide
+/-- three scopes; the open expectation sits in the FIRST named scope -/
+def scopesW : World :=
+  { glob := (Scope.fresh "").expectN 0 "g" [],
+    subs := [(Scope.fresh "s1").expectN 1 "f" [], (Scope.fresh "s2").expectN 0 "f" []] }
+example : (scopesW.check "").2 = some "Mock Failure: Expected call WAS NOT fulfilled." := by decide
+example : (scopesW.left "").2.2 = true := by decide
 
 /-- the same expectations declared under `strictOrder()` -/
 def sxA : Exp := (Exp.new "foo" 2 1 2).addSeg (.inp "a" (.int 1)) |>.addSeg (.inp "b" (.int 2))
